@@ -635,7 +635,7 @@ fn check_inner(c: &Case, obs: &mut Obs, ab: &mut Absorb) -> Result<(), Fail> {
         Case::InOutput { src, idx, out, valid, datum } => {
             // rebuild the transaction with the datum inline in one output and among the witness datums
             let base = crate::c31::Case {
-                src: src.clone(), idx: *idx, flag: Some(*valid), dup_inputs: vec![], dup_collateral: vec![],
+                src: src.clone(), idx: *idx, flag: Some(*valid), dup_inputs: vec![], sibling_inputs: vec![], dup_collateral: vec![],
                 collateral_from_inputs: false, collret: crate::c31::CollRet::Keep,
             };
             let Some((tag, plain)) = crate::c31::build(&base) else {
